@@ -67,6 +67,29 @@ class Spec(hist.Spec):
         n = ".".join(refhost.norm_labels(op[1]))
         return [[op[0], n]] if n != op[1] else []
 
+    # observe / mutate / observe pass (hist.interleavings)
+    def probes(self):
+        return [["len"], ["iter"]] + [["match", q, f] for q in self.qhosts for f in self.forms[:2]]
+
+    def apply(self, t, op):
+        t.add(op[1])
+
+    def probe(self, t, p):
+        if p[0] == "len":
+            return list(core.call(len, t)[:2])
+        if p[0] == "iter":
+            return list(core.call(lambda: sorted(t))[:2])
+        return list(core.call(t.match, embed(p[1], p[2]))[:2])
+
+    def ref_probe(self, s, p):
+        cover = sorted(".".join(h) for h in s if not any(o != h and refhost.under(h, o) for o in s))
+        if p[0] == "len":
+            return ["ok", len(cover)]
+        if p[0] == "iter":
+            return ["ok", cover]
+        ql = refhost.norm_labels(p[1])
+        return ["ok", any(refhost.under(ql, h) for h in s)]
+
     def check(self, t, s):
         fails = []
         n = 0
@@ -100,11 +123,17 @@ def all_specs():
             Spec("closure-abc2", hosts_upto("abc", 2), hosts_upto("abc", 3)),
             Spec("bounded-abc3", hosts_upto("abc", 3), hosts_upto("abc", 3) + ["a.a.a.a", "c.b.a.c"], forms=["bare", "full"]),
             Spec("seq-spelling", spell, spellq),
+            # labels starting with a digit (not IP literals), hosts mixing punycode, Unicode and undecodable xn-- labels
+            Spec("seq-spelling-mixed", ["9a.com", "9A.COM", "b.9a.com", "1.fr", "xn--9ca.é.fr", "é.xn--9ca.fr", "xn--9ca.xn--ii.fr", "É.xn--ii.fr"],
+                 ["9a.com", "b.9a.com", "c.B.9A.com", "1.fr", "a.1.fr", "é.é.fr", "xn--9ca.xn--9ca.fr", "x.É.é.fr", "é.xn--ii.fr", "xn--9ca.xn--ii.fr", "xn--ii.fr", "é.fr"],
+                 forms=["bare", "http", "full", "upper"]),
         ]
     }
 
 
 def judge(w):
+    if "probe" in w:
+        return hist.judge_interleaved(Spec("replay", [], []), w["ops"], w["probe"], w["then"])
     q = w["query"]
     spec = Spec("replay", [], [q[1]] if len(q) > 1 else [], forms=[q[2]] if len(q) > 2 else FORMS)
     obj = spec.build_ops(w["ops"])
@@ -132,6 +161,10 @@ def explore(chk):
     chk.cov["exhaustive"] = ex  # the depth bound of this part is its stated bound, not a cap hit
     L = 4 if quick else 5
     hist.sequences(S["seq-spelling"], chk, "seq-spelling", L)
+    hist.sequences(S["seq-spelling-mixed"], chk, "seq-spelling-mixed", 3 if quick else 4)
+    chk.rule.append("Observe/mutate/observe: after every add history of length <= %d over {a,b,c} depth<=2, every single query, then one further "
+                    "add (or none), then the same query twice, each answer compared with the reference set." % (2 if quick else 3))
+    hist.interleavings(S["closure-abc2"], chk, "interleaved-abc2", 2 if quick else 3)
     chk.cov["bounds"] = {"closure": "complete (ab3, abc2)", "bounded-abc3 depth": 3 if quick else 4, "L spelling": L}
     chk.cov["distinct_nontrivial"] = chk.cov["states"]
     for c in ("C09.len", "C09.iter", "C09.match"):
